@@ -239,6 +239,7 @@ class Tracker:
         self.dropped = []           # (function, line) where a tag was lost
         self.tainted = None         # why no invariance proof is possible
         self.last_store_unsteady = False
+        self.test_why = None        # why the test being evaluated is unsteady
         self.it = None
         import os
         self.trace = bool(os.environ.get("SA_HOM_TRACE"))
@@ -360,8 +361,11 @@ class Tracker:
                     and isinstance(b, AArr) and len(b.shape) == 2
                 h = Hom(h.deg, keep)
         elif isinstance(op, (ast.BitAnd, ast.BitOr, ast.BitXor)):
-            h = Hom((), False, None,
-                    not (self.unsteady(a) or self.unsteady(b)))
+            ok = not (self.unsteady(a) or self.unsteady(b))
+            why = next((getattr(x, "hom", None).why for x in (a, b)
+                        if getattr(getattr(x, "hom", None), "why", None)),
+                       None)
+            h = Hom((), False, None, ok, None if ok else why)
         elif isinstance(op, (ast.FloorDiv, ast.Mod)):
             if ha is not None and hb is not None and ha.invariant \
                     and hb.invariant:
@@ -424,6 +428,7 @@ class Tracker:
         h = getattr(mask, "hom", None)
         if h is not None and not h.wild and not h.mixed and h.why \
                 and h.mask is None:
+            self.test_why = h.why
             self.event(it, "E7", f"a test deciding a branch or a validity "
                                  f"guard is {h.why}")
         if self.tainted is None:
@@ -635,10 +640,20 @@ class Tracker:
             ok = h0 is not None and (h0.invariant or h0.wild) and all(
                 (lambda z: z is not None and (z.invariant or z.wild))(
                     self.of(x)) for x in args[1:2])
-            return out(Hom((), False, None, ok))
+            why = None
+            h1 = self.plain(self.of(args[1])) if len(args) > 1 else INV
+            if not ok and h0 is not None and h1 is not None \
+                    and not h0.wild and not (h0.invariant and (
+                        h1.invariant or h1.wild)):
+                why = (f"np.isclose applies a fixed tolerance to {h0!r}: "
+                       "which entries pass depends on the representative")
+            return out(Hom((), False, None, ok, why))
         if name in ("np.logical_and", "np.logical_or", "np.logical_not"):
             ok = not any(self.unsteady(x) for x in args)
-            return out(Hom((), False, None, ok))
+            why = next((x.hom.why for x in args
+                        if getattr(getattr(x, "hom", None), "why", None)),
+                       None)
+            return out(Hom((), False, None, ok, None if ok else why))
         if name in INVARIANT_RESULT:
             return out(INV)
         if name in SAME_TAG or name == "utils.array_like":
@@ -704,6 +719,9 @@ class Tracker:
             self.event(it, "E2", f"np.angle of a quantity that turns with "
                                  f"the scale ({h0!r})")
             return out(None)
+        if name == "np.hypot" and len(args) == 2:
+            j = self.plain(join(h0, self.plain(self.of(args[1]))))
+            return out(absolute(j))
         if name in ("np.maximum", "np.minimum") and len(args) == 2:
             j = self.plain(join(h0, self.plain(self.of(args[1]))))
             if j is not None and not j.wild and any(n for v, n, m in j.deg):
